@@ -23,6 +23,8 @@ UNITS = {
     "ExtNames": dict(target=("ext", "EN", {"k": 2}), ports=[("i", 1), ("units", 1), ("inner", 1), ("x", 1)]),  # ports named like the generators' own attributes
     "ModBus": dict(target=("mod", "UnitM"), ports=[("a", 1), ("b", 1), ("w", 2)]),
     "ModBundle": dict(target=("mod", "UnitB"), ports=[("a", 1), ("b", 1)], bports=[("t", "B1")]),
+    # bundle-valued ports named like the generators' own attributes
+    "ModBundleNames": dict(target=("mod", "UnitBN"), ports=[("a", 1), ("b", 1)], bports=[("i", "B1"), ("inner", "B1"), ("units", "B1")]),
 }
 
 
@@ -37,7 +39,12 @@ def unit_modules():
         ("inst", "r", ("prim", "R", {"r": 6}), [("p", sig("a")), ("n", sig("b"))]),
         ("inst", "px", ("ext", "P1", {"k": 3}), [("a", bref("t", "x"))]),
         ("inst", "py", ("ext", "P2", {"k": 4}), [("a", bref("t", "y"))])]}
-    return exts, {"UnitM": um, "UnitB": ub}
+    ubn = {"name": "UnitBN", "style": "class", "decls": [
+        ("port", "a", 1, "none"), ("port", "b", 1, "none"), ("bport", "i", "B1", False, None), ("bport", "inner", "B1", False, None), ("bport", "units", "B1", False, None),
+        ("inst", "r", ("prim", "R", {"r": 7}), [("p", sig("a")), ("n", sig("b"))]),
+        ("inst", "pi", ("ext", "P1", {"k": 5}), [("a", bref("i", "x"))]), ("inst", "pn", ("ext", "P2", {"k": 6}), [("a", bref("inner", "y"))]),
+        ("inst", "pu", ("ext", "P1", {"k": 7}), [("a", bref("units", "x"))])]}
+    return exts, {"UnitM": um, "UnitB": ub, "UnitBN": ubn}
 
 
 def expected_design(uname, A, B, n, wrapper=False):
